@@ -362,6 +362,8 @@ func replayC11(kind string, raw json.RawMessage) *Failure {
 			return evalPlanarBig8(pc)
 		}
 		return evalPlanarSmall(pc, c11Tables)
+	case "planar-state-eg":
+		return evalPlanarStateEG(pc)
 	case "planar-state":
 		if pc.N > 64 {
 			return evalPlanarStateEG(pc)
